@@ -61,6 +61,26 @@ func (vReader) Read(p []byte) (int, error) {
 // vShiftPos replaces shiftPos in the engine: position bookkeeping is not the subject
 func vShiftPos(p Position, s string) Position { return p }
 
+// vWs: whitespace token type — contract: a run of vWsLen blank characters precedes the
+// token; it is consumed in pieces of whatever is buffered.
+var vWsLen int64
+
+type vWs struct{}
+
+func (vWs) GetID() TokenID { return -1 }
+func (w vWs) FindToken(s string, p Position) *Token {
+	n := int64(len(s))
+	if vWsLen == 0 || n == 0 {
+		return nil
+	}
+	k := vWsLen
+	if n < k {
+		k = n
+	}
+	vWsLen -= k
+	return &Token{Type: w, Literal: s[:k], Position: p}
+}
+
 type vTok struct {
 	id   TokenID
 	real bool
@@ -95,13 +115,14 @@ func (t *vTok) FindToken(s string, p Position) *Token {
 func VH_C16_scan(chunked bool, maxTok int64, delimited bool, maxReads int) {
 	vChunked, vReads, vMaxReads = chunked, 0, maxReads
 	vDelimited = delimited
-	b0, r0, T := rt.Int64(), rt.Int64(), rt.Int64()
+	b0, r0, T, W := rt.Int64(), rt.Int64(), rt.Int64(), rt.Int64()
 	rt.Assume(b0 >= 0 && b0 <= 4096)
 	rt.Assume(r0 >= 0 && r0 <= 8192)
-	rt.Assume(T >= 1 && T <= maxTok && T <= b0+r0)
-	vRem, vTokLen = r0, T
+	rt.Assume(W >= 0 && W <= 3000)
+	rt.Assume(T >= 1 && T <= maxTok && W+T <= b0+r0)
+	vRem, vTokLen, vWsLen = r0, T, W
 	l := NewLexer(vReader{})
-	l.Whitespace = nil
+	l.Whitespace = vWs{}
 	l.TokenTypes = []TokenType{&vTok{1, false}, &vTok{2, true}, &vTok{3, false}}
 	l.buf = rt.LenStr(b0)
 	tok, err := l.Scan()
@@ -110,5 +131,5 @@ func VH_C16_scan(chunked bool, maxTok int64, delimited bool, maxReads int) {
 		return
 	}
 	rt.Assert(int64(len(tok.Literal)) == T, "a token of any length is read as one token with its full text, however the reader chunks the input")
-	rt.Assert(int64(len(l.buf))+vRem == b0+r0-T, "buffer invariant: buf stays the unread prefix of the remaining input")
+	rt.Assert(int64(len(l.buf))+vRem == b0+r0-W-T, "buffer invariant: buf stays the unread prefix of the remaining input")
 }
